@@ -78,6 +78,13 @@ def m_setter(eng, n, st, func, want):
                 eng.oblige(s1, [ge(vals[1], 1), le(vals[1], w - 1)], 'invariant',
                            'a single-character argument lies inside its word (1 <= position < length)', n, func,
                            'position %r, length %r;' % (vals[1], w))
+        if short == 'setArgString' and len(vals) >= 2 and isinstance(vals[1], Obj):
+            # '--key=value': the key handed on is exactly the text in front of the '=' that was found
+            for g in s1.ghost:
+                if g[0] == 'cfind' and g[2] == vals[1].name and g[3] == ord('='):
+                    ln = eng.string_len(s1, vals[1].name)
+                    eng.oblige(s1, eq(ln, g[4]), 'split', "the long key is exactly the text in front of the '=' "
+                               "found in the word", n, func, 'key length %r, position of the \'=\' %r;' % (ln, g[4]))
         for a, v in zip(args, vals):
             if (a.get('t') or '').replace('const ', '').strip() == 'char *':
                 if isinstance(v, Ptr):
@@ -201,7 +208,7 @@ def make_engine(prog):
     return eng
 
 
-def run(chk, prog, rule='R6'):
+def run(chk, prog, rule='R6', split_rule=None):
     fs = [f for f in prog.functions if (f.classq or '') == CLS]
     by = {}
     for f in fs:
@@ -214,13 +221,42 @@ def run(chk, prog, rule='R6'):
     def report(f, before, tag):
         n = 0
         for o in eng.obligations[before:]:
-            if o.kind in ('bounds', 'invariant', 'nul'):
+            if o.kind in ('bounds', 'invariant', 'nul') and rule is not None:
                 n += 1
                 chk.check(o.held, rule, f.name, '%s [%s]' % (o.what, tag), o.where, o.detail)
+            elif o.kind == 'split' and split_rule is not None:
+                n += 1
+                chk.check(o.held, split_rule, f.name, '%s [%s]' % (o.what, tag), o.where, o.detail)
+        return n
+
+    def split_exit(f, s, tag):
+        """'--key=value': after the step that found the '=', the cursor stands on the first character behind it (in
+        the same word): that is where the value element of the next step starts"""
+        if split_rule is None:
+            return 0
+        n = 0
+        for g in s.ghost:
+            if g[0] != 'cfind' or g[3] != ord('='):
+                continue
+            nv = s.fields.get(('this', 'mNextIsValue'))
+            if not (isinstance(nv, Lin) and entails(s.cons, ge(nv, 1))):
+                continue
+            src = s.fields.get((g[2], 'source'))
+            pos = s.fields.get(('this', 'mArgCharPos'))
+            idx = s.fields.get(('this', 'mArgIndex'))
+            ok = isinstance(src, Ptr) and isinstance(pos, Lin) and isinstance(idx, Lin) and \
+                src.region == 'argv[%r]' % (idx,) and all(entails(s.cons, c) for c in eq(pos, src.off + g[4] + 1))
+            n += 1
+            chk.check(ok, split_rule, f.name, "the value of '--key=value' starts at the character right behind the "
+                      "'=' that was found [%s]" % tag, f.loc(), '' if ok else
+                      "searched text starts at %r, '=' found at offset %r of it, cursor afterwards %r; path [%s]" % (
+                          src, g[4], pos, '; '.join(s.trail[-6:])))
         return n
 
     def exit_case(f, s, tag):
         c = which_case(eng, s)
+        if rule is None:
+            return c
         chk.check(c is not None, rule, f.name, 'the cursor is in one of the four invariant cases at exit [%s]' % tag,
                   f.loc(), '' if c is not None else 'index %r, position %r, pending value %r, argc %r on the path [%s]' % (
                       s.fields.get(('this', 'mArgIndex')), s.fields.get(('this', 'mArgCharPos')),
@@ -304,6 +340,7 @@ def run(chk, prog, rule='R6'):
                     if s.status in ('normal', 'return'):
                         exit_case(f, s, tag)
                         total += 1
+                        total += split_exit(f, s, tag)
     chk.samples.append({'R6_cursor_obligations': total})
     if eng.unsupported:
         chk.notes.append('cursor analysis, constructs evaluated as opaque: %s' % sorted(set(eng.unsupported))[:12])
